@@ -230,6 +230,12 @@ def commitArt (ctx : Ctx κ) (strat : Strat) (a : Art) (n : Option (Node κ)) (s
 
 /-! ## checkout -/
 
+/-- the workspace entry is a regular file whose bytes hash to the recorded checksum -/
+def upToDateCopy (ctx : Ctx κ) (cur : Option (Node κ)) (sum : Digest) : Bool :=
+  match cur with
+  | some (.file c) => ctx.H c == sum
+  | _ => false
+
 /-- `checkoutFile` for the node currently at the path (`none`: absent); the result is the node
 afterwards. On `sumMismatch` the real code leaves the bad copy behind (see `checkoutFileBad`). -/
 def checkoutFile (ctx : Ctx κ) (strat : Strat) (cur : Option (Node κ)) (sum : Digest)
@@ -240,6 +246,8 @@ def checkoutFile (ctx : Ctx κ) (strat : Strat) (cur : Option (Node κ)) (sum : 
   else match s.get sum with
     | none => .error .missingFromCache
     | some o =>
+      -- a regular file whose bytes hash to the recorded checksum is already checked out
+      if upToDateCopy ctx cur sum then .ok (cur.getD .other) else
       match strat with
       | .copy =>
         let cur' := if q.cm then none else cur
